@@ -247,7 +247,7 @@ fn make_point(line: &Line, dim: usize, order: Option<&[usize]>, rng: &mut impl R
             x[i] = match extreme { 2 => [1e-9, 0.5, 1.0 - 1e-9, 0.999, 0.0, f64::EPSILON / 2.0, 2f64.powi(-60), 1.0 - f64::EPSILON / 2.0, 1.0 - f64::EPSILON][rng.gen_range(0..9)], _ => rng.gen_range(0.01..0.99) };
         } else {
             x[i] = match extreme {
-                2 => [f64::MIN_POSITIVE, 1e-300, 1e-9, 0.5, 1.0 - f64::EPSILON / 2.0, 0.25, 0.75][rng.gen_range(0..7)],
+                2 => [f64::MIN_POSITIVE, 1e-300, 1e-9, 0.5, 1.0 - f64::EPSILON / 2.0, 0.25, 0.75, 0.0][rng.gen_range(0..8)],
                 _ => rng.gen_range(1e-6..1.0 - 1e-6),
             };
         }
